@@ -253,41 +253,49 @@ Proof. eexists. split; vm_compute; reflexivity. Qed.
 
 (* ---------------------------------------------------------------- part 2 over the parser AND
    checker twins (PA): Model/ParseCheck.v joins the parser twin to the checker twin of C14
-   (Model/Checker.v): [parse_check fo q] = Lexer.lex, the statement parser run with the REAL
+   (Model/Checker.v): [parse_check fo re fmt_v q] = Lexer.lex, the statement parser run with the REAL
    mid-parse tests ([real_hooks]: twin of checkFieldCycles, findFieldInSelect for ORDER BY /
    GROUP BY items, the aggregate-name test, Check of the GROUP BY fields, all computed by the
    checker twin), [to_check], Checker.build_check (Check / Validate / ValidateFields, then the
-   call validation of optimizer.go) and the three tests of buildFinalPlan -- i.e. everything
-   Optimizer.BuildPlan does with a query TEXT before the first plan node is initialised.  The
+   call validation of optimizer.go), the constant folder on the select fields
+   (optimizeSelectExpressions, Model/FoldStmt.v) and the three tests of buildFinalPlan on the
+   folded fields -- i.e. everything Optimizer.BuildPlan does with a query TEXT before the first
+   plan node is initialised.  The
    premise [hooks_ok] of the parser-level theorems above is DISCHARGED for the real tests, the
    abstract provenance model (Model/ErrPos.v) is no longer needed for the type checker.
-   [fo] is the float structure (no law assumed; it only reads the divisor literal of `/`). *)
+   [fo] is the float structure (no law assumed; it reads the divisor literal of `/` and serves the
+   folder), [re] the regular-expression oracle and [fmt_v] the float printer of the folder (any:
+   nothing is assumed of them here). *)
 From KV Require Import Model.Value Model.ParseCheck Proofs.ParseCheckProofs.
 From KV Require Model.Checker.
 
 (* the full statements of the header, for EVERY query text and every rejection (syntax error,
    mid-parse test, checker, call validation, plan builder): the position is -1, 0 or the offset
    of one of the query's tokens, AND it is -1 or lies inside the query *)
-Theorem err_pos_is_token_start_and_in_query : forall (fo : fops) (q : string) (k : pckind) (z : Z),
-  parse_check fo q = PCErr k z ->
+Theorem err_pos_is_token_start_and_in_query : forall (fo : fops) (re : string -> string -> res bool) (fmt_v : F fo -> string)
+         (q : string) (k : pckind) (z : Z),
+  parse_check fo re fmt_v q = PCErr k z ->
   pos_is_token_start (zstarts (lex q)) z = true /\ pos_in_query q z = true.
 Proof. exact parse_check_err_position_thm. Qed.
 Print Assumptions err_pos_is_token_start_and_in_query.
 
-Theorem err_pos_is_token_start : forall (fo : fops) (q : string) (k : pckind) (z : Z),
-  parse_check fo q = PCErr k z ->
+Theorem err_pos_is_token_start : forall (fo : fops) (re : string -> string -> res bool) (fmt_v : F fo -> string)
+         (q : string) (k : pckind) (z : Z),
+  parse_check fo re fmt_v q = PCErr k z ->
   z = (-1)%Z \/ pos_is_token_start (zstarts (lex q)) z = true.
 Proof. exact parse_check_err_token_start_thm. Qed.
 Print Assumptions err_pos_is_token_start.
 
-Theorem err_pos_in_query : forall (fo : fops) (q : string) (k : pckind) (z : Z),
-  parse_check fo q = PCErr k z -> pos_in_query q z = true.
+Theorem err_pos_in_query : forall (fo : fops) (re : string -> string -> res bool) (fmt_v : F fo -> string)
+         (q : string) (k : pckind) (z : Z),
+  parse_check fo re fmt_v q = PCErr k z -> pos_in_query q z = true.
 Proof. exact parse_check_err_in_query_thm. Qed.
 Print Assumptions err_pos_in_query.
 
 (* the same in plain arithmetic *)
-Theorem err_pos_arith : forall (fo : fops) (q : string) (k : pckind) (z : Z),
-  parse_check fo q = PCErr k z ->
+Theorem err_pos_arith : forall (fo : fops) (re : string -> string -> res bool) (fmt_v : F fo -> string)
+         (q : string) (k : pckind) (z : Z),
+  parse_check fo re fmt_v q = PCErr k z ->
   z = (-1)%Z \/
   ((0 <= z < Z.of_nat (String.length q))%Z /\ (z = 0%Z \/ In z (zstarts (lex q)))).
 Proof. exact parse_check_err_arith_thm. Qed.
@@ -297,8 +305,9 @@ Print Assumptions err_pos_arith.
    nodes of all trees) and in the checked trees (after name resolution: field references
    included) is 0 or a token offset, inside the query *)
 Theorem accepted_positions_are_token_starts :
-  forall (fo : fops) (q : string) (s : StmtParser.stmt) (c : Checker.stmt) (a : bool),
-  parse_check fo q = PCOk s c a ->
+  forall (fo : fops) (re : string -> string -> res bool) (fmt_v : F fo -> string)
+         (q : string) (s : StmtParser.stmt) (c : Checker.stmt) (a : bool),
+  parse_check fo re fmt_v q = PCOk s c a ->
   parse_real fo (lex q) = SOk s /\
   Forall (prov (lex q)) (stmt_positions s) /\
   Forall (prov (lex q)) (cstmt_positions c) /\
@@ -307,8 +316,9 @@ Proof. exact parse_check_ok_positions_thm. Qed.
 Print Assumptions accepted_positions_are_token_starts.
 
 (* the composite twin is total: a statement, a positional rejection or "outside the model" *)
-Theorem parse_check_total : forall (fo : fops) (q : string),
-  match parse_check fo q with PCPanic | PCFuel | PCOther => False | _ => True end.
+Theorem parse_check_total :
+  forall (fo : fops) (re : string -> string -> res bool) (fmt_v : F fo -> string) (q : string),
+  match parse_check fo re fmt_v q with PCPanic | PCFuel | PCOther => False | _ => True end.
 Proof. exact parse_check_total_thm. Qed.
 Print Assumptions parse_check_total.
 
@@ -331,16 +341,14 @@ Theorem to_check_preserves_positions : forall (s : StmtParser.stmt) (c : Checker
 Proof. exact to_check_positions. Qed.
 Print Assumptions to_check_preserves_positions.
 
-(* ... and gives None, for a statement the parser returned, exactly for a SELECT with GROUP BY one
-   of whose fields uses the name of a field (kept outside since before resolveFieldNames
-   existed, when parseGroupBy's Check rewrote such fields in place ahead of WHERE and
-   ValidateFields; see Model/ParseCheck.v) *)
+(* ... and takes EVERY statement the parser returns (it gives None only when FieldNames and
+   Fields differ in length, which Parser.Parse never builds).  Before, a SELECT with GROUP BY one
+   of whose fields uses the name of a field was kept outside; since resolveFieldNames
+   (the fix "select fields were type checked against fields whose names were not resolved yet")
+   the checker twin applies to it unchanged *)
 Theorem to_check_none_exactly : forall (h : hooks) (ts : list token) (s : StmtParser.stmt),
-  parse_with h ts = SOk s ->
-  (to_check s = None <->
-   exists x, s = StSelect x /\ s_group x <> None /\
-             existsb (uses_field_name (s_names x)) (s_fields x) = true).
-Proof. exact to_check_none_iff. Qed.
+  parse_with h ts = SOk s -> exists c, to_check s = Some c.
+Proof. exact to_check_parsed_some. Qed.
 Print Assumptions to_check_none_exactly.
 
 (* (c) the real mid-parse tests report positions of the nodes they are given; the cycle test's
@@ -358,23 +366,49 @@ Print Assumptions cycle_test_fuel_enough.
    itself: the name), by the call validation (argument count: the call), by the plan builder
    (statement position 0; end of input), by a mid-parse test behind leading blanks, by the
    syntax; an accepted statement with an alias used inside another field and in WHERE *)
-Example parse_check_rejections_nonvacuous : forall fo : fops,
-  parse_check fo "select * where key = 1" = PCErr KCheck 19%Z /\
-  parse_check fo "select upper(u) as u where key = 'a'" = PCErr KMidParse 13%Z /\
-  parse_check fo "select * where upper(key, key) = 'A'" = PCErr KCalls 15%Z /\
-  parse_check fo "select key where key ^= 'k' group by key" = PCErr KPlan 0%Z /\
-  parse_check fo "select count(1), key where key ^= 'k'" = PCErr KPlan (-1)%Z /\
-  parse_check fo "   select key where value = 'a' order by kk" = PCErr KMidParse 41%Z /\
-  parse_check fo "select * where key = 'a' &" = PCErr KSyntax (-1)%Z /\
-  parse_check fo "select zq0 + 1 as zq2, zq1 + 'x' as zq0, key as zq1, zq2 * 2 as zq3 where key > 'a'"
+Example parse_check_rejections_nonvacuous :
+  forall (fo : fops) (re : string -> string -> res bool) (fmt_v : F fo -> string),
+  let parse_check := parse_check fo re fmt_v in
+  parse_check "select * where key = 1" = PCErr KCheck 19%Z /\
+  parse_check "select upper(u) as u where key = 'a'" = PCErr KMidParse 13%Z /\
+  parse_check "select * where upper(key, key) = 'A'" = PCErr KCalls 15%Z /\
+  parse_check "select key where key ^= 'k' group by key" = PCErr KPlan 0%Z /\
+  parse_check "select count(1), key where key ^= 'k'" = PCErr KPlan (-1)%Z /\
+  parse_check "   select key where value = 'a' order by kk" = PCErr KMidParse 41%Z /\
+  parse_check "select * where key = 'a' &" = PCErr KSyntax (-1)%Z /\
+  parse_check "select zq0 + 1 as zq2, zq1 + 'x' as zq0, key as zq1, zq2 * 2 as zq3 where key > 'a'"
     = PCErr KCheck 7%Z.
-Proof. intros fo. repeat split; vm_compute; reflexivity. Qed.
+Proof. intros fo re fmt_v pc. repeat split; vm_compute; reflexivity. Qed.
 
-Example parse_check_accepted_nonvacuous : forall fo : fops,
-  exists s c, parse_check fo "select key as k, upper(k) as u where u = 'A' order by k limit 3" = PCOk s c false /\
+Example parse_check_accepted_nonvacuous :
+  forall (fo : fops) (re : string -> string -> res bool) (fmt_v : F fo -> string),
+  exists s c, parse_check fo re fmt_v "select key as k, upper(k) as u where u = 'A' order by k limit 3" = PCOk s c false /\
               stmt_positions s = [0; 31; 45; 56; 7; 17; 17; 23; 39; 37; 41; 54] /\
               cstmt_positions c = [7; 17; 17; 23; 7; 39; 37; 17; 17; 23; 7; 41; 54].
-Proof. intros fo. eexists. eexists. split; [vm_compute; reflexivity|]. split; vm_compute; reflexivity. Qed.
+Proof. intros fo re fmt_v. eexists. eexists. split; [vm_compute; reflexivity|]. split; vm_compute; reflexivity. Qed.
+
+(* the plan stage runs on the FOLDED fields, as buildFinalPlan does (optimizeSelectExpressions
+   comes first): `true | count(1) > 0` is folded to `true`, no aggregate call is left and a
+   ProjectionPlan is built (on the unfolded field the answer would be "Missing group by
+   statement", -1); a constant call next to an aggregate call stays an aggregate field; a
+   constant-false `&` removes the aggregate call as well; GROUP BY together with select fields
+   that use select-field names is inside the twin (accepted: an AggregatePlan; one plain field
+   too many: "Missing aggregate fields in group by statement" at GROUP) *)
+Example parse_check_folded_plan_nonvacuous :
+  forall (fo : fops) (re : string -> string -> res bool) (fmt_v : F fo -> string),
+  let parse_check := parse_check fo re fmt_v in
+  (exists s c, parse_check "select true | (count(1) > 0) as x, key where key > ''" = PCOk s c false) /\
+  (exists s c, parse_check "select false & (count(1) > 0) as x, key where key > ''" = PCOk s c false) /\
+  parse_check "select false | (count(1) > 0) as x, key where key > ''" = PCErr KPlan (-1)%Z /\
+  parse_check "select strlen('abc') + count(1) as x, key where key > ''" = PCErr KPlan (-1)%Z /\
+  (exists s c, parse_check "select strlen('abc') + count(1) as x where key > ''" = PCOk s c true) /\
+  (exists s c, parse_check "select int(value) as n, sum(n) as s, n + 1 as m where key > '' group by n, m"
+               = PCOk s c true) /\
+  parse_check "select int(value) as n, sum(n) as s, n + 1 as m, key where key > '' group by n, m"
+    = PCErr KPlan 68%Z.
+Proof.
+  intros fo re fmt_v pc. subst pc. repeat split; vm_compute; try reflexivity; eexists; eexists; reflexivity.
+Qed.
 
 (* ---------------------------------------------------------------- part 2, EXECUTION (T3): the
    positions of errors raised while an ACCEPTED statement runs, and what the constant folder
@@ -515,7 +549,7 @@ Print Assumptions fold_reports_no_error.
 Theorem exec_err_pos_row :
   forall (fo : fops) (re : string -> string -> res bool) (fmt_v : F fo -> string), re_plain re ->
   forall (q : string) (s : StmtParser.stmt) (c : Checker.stmt) (a : bool) (T : expr) (k v : string) (p : nat),
-  parse_check fo q = PCOk s c a -> In T (cstmt_exprs c) ->
+  parse_check fo re fmt_v q = PCOk s c a -> In T (cstmt_exprs c) ->
   eval fo re k v (fold fo re fmt_v T) = Err (EExec p) \/
   filter_row fo re k v (fold fo re fmt_v T) = Err (EExec p) ->
   (Z.of_nat p = 0%Z \/ In (Z.of_nat p) (zstarts (lex q))) /\ pos_in_query q (Z.of_nat p) = true.
@@ -527,7 +561,7 @@ Theorem exec_err_pos_batch :
   forall (fo : fops) (re : string -> string -> res bool) (fmt_v : F fo -> string), re_plain re ->
   forall (q : string) (s : StmtParser.stmt) (c : Checker.stmt) (a : bool) (T : expr)
          (fixed_between : bool) (ch : list kvpair) (p : nat),
-  parse_check fo q = PCOk s c a -> In T (cstmt_exprs c) ->
+  parse_check fo re fmt_v q = PCOk s c a -> In T (cstmt_exprs c) ->
   eval_batch fo re fixed_between (fold fo re fmt_v T) ch = Err (EExec p) \/
   filter_batch fo re fixed_between (fold fo re fmt_v T) ch = Err (EExec p) ->
   (Z.of_nat p = 0%Z \/ In (Z.of_nat p) (zstarts (lex q))) /\ pos_in_query q (Z.of_nat p) = true.
@@ -539,7 +573,7 @@ Print Assumptions exec_err_pos_batch.
 Theorem exec_err_pos_executed_tree :
   forall (fo : fops) (re : string -> string -> res bool) (fmt_v : F fo -> string), re_plain re ->
   forall (q : string) (s : StmtParser.stmt) (c : Checker.stmt) (a : bool) (T : expr) (p : nat),
-  parse_check fo q = PCOk s c a -> In T (cstmt_exprs c) ->
+  parse_check fo re fmt_v q = PCOk s c a -> In T (cstmt_exprs c) ->
   (exists k v, eval fo re k v (exec_tree fo re fmt_v T) = Err (EExec p) \/
                filter_row fo re k v (exec_tree fo re fmt_v T) = Err (EExec p)) \/
   (exists fb ch, eval_batch fo re fb (exec_tree fo re fmt_v T) ch = Err (EExec p) \/
@@ -550,9 +584,9 @@ Print Assumptions exec_err_pos_executed_tree.
 
 (* ... and on the checked tree itself (PUT / REMOVE trees are executed unfolded) *)
 Theorem exec_err_pos_unfolded :
-  forall (fo : fops) (re : string -> string -> res bool), re_plain re ->
+  forall (fo : fops) (re : string -> string -> res bool) (fmt_v : F fo -> string), re_plain re ->
   forall (q : string) (s : StmtParser.stmt) (c : Checker.stmt) (a : bool) (T : expr) (p : nat),
-  parse_check fo q = PCOk s c a -> In T (cstmt_exprs c) ->
+  parse_check fo re fmt_v q = PCOk s c a -> In T (cstmt_exprs c) ->
   (exists k v, eval fo re k v T = Err (EExec p)) \/
   (exists fb ch, eval_batch fo re fb T ch = Err (EExec p)) ->
   (Z.of_nat p = 0%Z \/ In (Z.of_nat p) (zstarts (lex q))) /\ pos_in_query q (Z.of_nat p) = true.
@@ -562,9 +596,9 @@ Print Assumptions exec_err_pos_unfolded.
 (* the general form: ANY tree that carries only positions stored in the checked statement
    (whatever a later rewriting does, as long as it invents no position), all four entry points *)
 Theorem exec_err_pos_general :
-  forall (fo : fops) (re : string -> string -> res bool), re_plain re ->
+  forall (fo : fops) (re : string -> string -> res bool) (fmt_v : F fo -> string), re_plain re ->
   forall (q : string) (s : StmtParser.stmt) (c : Checker.stmt) (a : bool) (X : expr),
-  parse_check fo q = PCOk s c a -> incl (positions X) (cstmt_positions c) ->
+  parse_check fo re fmt_v q = PCOk s c a -> incl (positions X) (cstmt_positions c) ->
   (forall k v p, eval fo re k v X = Err (EExec p) ->
      (Z.of_nat p = 0%Z \/ In (Z.of_nat p) (zstarts (lex q))) /\ pos_in_query q (Z.of_nat p) = true) /\
   (forall k v p, filter_row fo re k v X = Err (EExec p) ->
@@ -585,7 +619,7 @@ Theorem select_exec_err_pos_in_query :
   forall (fo : fops) (re : string -> string -> res bool) (fmt_v : F fo -> string), re_plain re ->
   forall (q : string) (s : StmtParser.stmt) (fields : list (string * expr)) (w : expr)
          (order : list (nat * string)) (a all_fields : bool) (slots : list (option kvpair)) (B p : nat),
-  parse_check fo q = PCOk s (Checker.SSelect fields w order) a ->
+  parse_check fo re fmt_v q = PCOk s (Checker.SSelect fields w order) a ->
   select_row fo re (exec_tree fo re fmt_v w)
              (if all_fields then None else Some (exec_fields fo re fmt_v fields)) slots = Err (EExec p) \/
   select_batch fo re B (exec_tree fo re fmt_v w)
@@ -606,7 +640,7 @@ Print Assumptions select_exec_err_pos_in_query.
    is the offset of the DIVISOR (executeMathOp gets e.Right), here the call int(value) at 20 *)
 Example exec_err_div0_nonvacuous : forall (fo : fops) (re : string -> string -> res bool) (fmt_v : F fo -> string),
   let q := "select * where 10 / int(value) > 1" in
-  exists w, pc_where (parse_check fo q) = Some w /\
+  exists w, pc_where (parse_check fo re fmt_v q) = Some w /\
     filter_row fo re "k1" "0" (fold fo re fmt_v w) = Err (EExec 20) /\
     filter_batch fo re true (fold fo re fmt_v w) [("k0", "5"); ("k1", "0")] = Err (EExec 20) /\
     filter_row fo re "k0" "5" (fold fo re fmt_v w) = Ok true /\
@@ -619,12 +653,12 @@ Proof. intros fo re fmt_v q. eexists. split; [vm_compute; reflexivity|]. repeat 
    bounds is reported at the operator *)
 Example exec_err_folded_nonvacuous : forall (fo : fops) (re : string -> string -> res bool) (fmt_v : F fo -> string),
   let q := "select * where 10 / (1 - 1) > 1" in
-  exists w, pc_where (parse_check fo q) = Some w /\
+  exists w, pc_where (parse_check fo re fmt_v q) = Some w /\
     filter_row fo re "k" "v" w = Err (EExec 23) /\
     filter_row fo re "k" "v" (fold fo re fmt_v w) = Err (EExec 21) /\
     filter_batch fo re true (fold fo re fmt_v w) [("k", "v")] = Err (EExec 21) /\
     In 21%Z (zstarts (lex q)) /\ In 23%Z (zstarts (lex q)) /\
-  exists w2, pc_where (parse_check fo "select * where value between 'z' and 'a'") = Some w2 /\
+  exists w2, pc_where (parse_check fo re fmt_v "select * where value between 'z' and 'a'") = Some w2 /\
     filter_row fo re "k" "v" (fold fo re fmt_v w2) = Err (EExec 21).
 Proof.
   intros fo re fmt_v q. eexists. split; [vm_compute; reflexivity|].
@@ -639,13 +673,13 @@ Qed.
    reference still carrying the unfolded definition) would say 15 *)
 Example exec_err_reference_nonvacuous : forall (fo : fops) (re : string -> string -> res bool) (fmt_v : F fo -> string),
   let q := "select 10 / (1 - 1) as x, key where x > 1" in
-  exists w, pc_where (parse_check fo q) = Some w /\
+  exists w, pc_where (parse_check fo re fmt_v q) = Some w /\
     filter_row fo re "k" "5" (fold fo re fmt_v w) = Err (EExec 15) /\
     filter_row fo re "k" "5" (exec_tree fo re fmt_v w) = Err (EExec 13) /\
     select_row fo re (exec_tree fo re fmt_v w)
-      (Some (map (exec_tree fo re fmt_v) (pc_fields (parse_check fo q)))) [Some ("k", "5")] = Err (EExec 13) /\
+      (Some (map (exec_tree fo re fmt_v) (pc_fields (parse_check fo re fmt_v q)))) [Some ("k", "5")] = Err (EExec 13) /\
     select_batch fo re 2 (exec_tree fo re fmt_v w)
-      (Some (map (exec_tree fo re fmt_v) (pc_fields (parse_check fo q)))) [Some ("k", "5")] = Err (EExec 13) /\
+      (Some (map (exec_tree fo re fmt_v) (pc_fields (parse_check fo re fmt_v q)))) [Some ("k", "5")] = Err (EExec 13) /\
     In 13%Z (zstarts (lex q)) /\ In 15%Z (zstarts (lex q)).
 Proof.
   intros fo re fmt_v q. eexists. split; [vm_compute; reflexivity|].
